@@ -26,6 +26,7 @@ const (
 	c11FNestedName   = "C11-oas2-inline-object-name-not-escaped"
 	c11FBoolDef      = "C11-oas2-boolean-definition"
 	c11FKeyword3     = "C11-oas3-keyword-property-name"
+	c11FIntDef3      = "C11-oas3-integer-definition-with-format-dropped"
 )
 
 type c11Prop struct {
@@ -215,6 +216,10 @@ func c11GenDoc(t *rapid.T, v int) c11Doc {
 			if pt.typ == "boolean" && v == 2 && knownActive(c11FBoolDef) {
 				rec.Exclude(c11FBoolDef)
 				pt = c11PrimT{"string", ""}
+			}
+			if pt.typ == "integer" && pt.format != "" && v == 3 && knownActive(c11FIntDef3) {
+				rec.Exclude(c11FIntDef3)
+				pt.format = ""
 			}
 			s.Item = &c11Prop{Type: pt.typ, Format: pt.format}
 		default:
